@@ -12,7 +12,7 @@
   of `./check C13`: every hook point, lock operation, store call and updater
   call of the real manager is one event, answered identically by the machine.
 -/
-import ClairModel.Proofs.Manager
+import ClairModel.Proofs.ManagerObs
 
 -- every variable of a property statement is bound explicitly: a misspelt name is an error, not a new variable
 set_option autoImplicit false
@@ -180,14 +180,14 @@ theorem latestFp_spec (uo : UoKind) (name : Nat) :
 theorem fetch_gets_latest_fp (env : Env) (hist : List Op) (evs : List Ev) (r i g : Nat) (prev : Fp)
     (hgc : i ≠ env.gcInst) (h : (reach env hist evs).pc r i = .gotOps g prev) :
     prev = latestFp (reach env hist evs).ops (env.upd i).kind.uo (env.upd i).name ∧
-    ∃ res fp, (step env (reach env hist evs) (.fetch r i)).2 =
+    ∃ res fp cl, (step env (reach env hist evs) (.fetch r i)).2 =
       .fetch ((env.upd i).kind == .enrich)
-        (latestFp (reach env hist evs).ops (env.upd i).kind.uo (env.upd i).name) res fp := by
+        (latestFp (reach env hist evs).ops (env.upd i).kind.uo (env.upd i).name) res fp cl := by
   have hp := (inv_run env hist evs).d.prev r i g prev h
   refine ⟨hp, ?_⟩
   simp only [step, h, hgc, if_false]
   rw [← hp]
-  split <;> exact ⟨_, _, rfl⟩
+  split <;> exact ⟨_, _, _, rfl⟩
 
 /-! ### mutual exclusion, isolation -/
 
@@ -428,12 +428,13 @@ theorem plan_mem (name : Nat → Nat) (cfgOk : Nat → Bool) (facs : List Fac) (
     updater gets its worker, which finishes), `skipped_iff_same_name_holder`
     (the exact condition for being skipped) and `free_name_is_driven`. -/
 theorem every_configured_fetched_counterexample :
-    let u : Upd := { name := 7, kind := .plain, getOk := fun _ => true, fetch := fun _ _ => (.ok, 1),
+    let u : Upd := { name := 7, kind := .plain, getOk := fun _ => true, fetch := fun _ _ => (.ok, 1), closer := fun _ _ => true,
                      parse := fun _ => some ⟨[1], []⟩, storeOk := fun _ => true }
     let env : Env := { upd := fun _ => u, batch := fun _ => 2, toRun := fun _ => [0, 1], stubSets := fun _ => 0,
+                       facCalls := fun _ => [], cfgCalls := fun _ => [], keep := fun _ => 0,
                        gc := fun _ => false, gcInst := 99 }
     let evs : List Ev := [.begin 0, .acquire 0, .launch 0, .acquire 0, .launch 0, .tryLock 0 0, .tryLock 0 1,
-      .done 0 1, .getOps 0 0, .fetch 0 0, .parse 0 0, .store 0 0, .status 0 0, .done 0 0, .wait 0, .drained 0, .ret 0]
+      .done 0 1, .getOps 0 0, .fetch 0 0, .parse 0 0, .store 0 0, .close 0 0, .status 0 0, .done 0 0, .wait 0, .drained 0, .ret 0]
     (reach env [] evs).pc 0 1 = .finished none ∧ (reach env [] evs).pc 0 0 = .finished (some (.stored (.vulns 7 1 [1]))) ∧
     ((reach env [] evs).run 0).pc = .returned ∧ ((reach env [] evs).run 0).errs = [] := by
   decide
@@ -443,12 +444,13 @@ theorem every_configured_fetched_counterexample :
     — not fetched, no error — while a concurrent `Run` is in its GC section,
     although the only other updater of that name finished long ago. -/
 theorem gc_lock_collision_counterexample :
-    let u : Upd := { name := 1, kind := .plain, getOk := fun _ => true, fetch := fun _ _ => (.ok, 1),
+    let u : Upd := { name := 1, kind := .plain, getOk := fun _ => true, fetch := fun _ _ => (.ok, 1), closer := fun _ _ => true,
                      parse := fun _ => some ⟨[1], []⟩, storeOk := fun _ => true }
     let env : Env := { upd := fun _ => u, batch := fun _ => 2, toRun := fun _ => [0], stubSets := fun _ => 0,
+                       facCalls := fun _ => [], cfgCalls := fun _ => [], keep := fun _ => 2,
                        gc := fun _ => true, gcInst := 99 }
     let before : List Ev := [.begin 0, .acquire 0, .launch 0, .tryLock 0 0, .getOps 0 0, .fetch 0 0, .parse 0 0,
-      .store 0 0, .status 0 0, .done 0 0, .wait 0, .drained 0, .gcTry 0, .begin 1, .acquire 1, .launch 1]
+      .store 0 0, .close 0 0, .status 0 0, .done 0 0, .wait 0, .drained 0, .gcTry 0, .begin 1, .acquire 1, .launch 1]
     let after : List Ev := [.tryLock 1 0, .done 1 0, .wait 1, .drained 1, .gcTry 1, .gcDone 1, .ret 1,
       .gc 0, .gcDone 0, .ret 0]
     (reach env [] before).pc 0 0 = .finished (some (.stored (.vulns 1 1 [1]))) ∧
@@ -462,7 +464,7 @@ theorem gc_lock_collision_counterexample :
 /-- The store's GC is called only by a run that holds the garbage-collection
     lock with a live context, and (see `run_waits_for_all`: `inGc` counts as
     drained) only after every updater of that run has finished. -/
-theorem gc_call_needs_lock (env : Env) (s : State) (r : Nat) (h : (step env s (.gc r)).2 = .ok) :
+theorem gc_call_needs_lock (env : Env) (s : State) (r : Nat) (h : (step env s (.gc r)).2 = .gcCall (env.keep r)) :
     (s.run r).pc = .inGc ∧ ∃ g, s.pc r env.gcInst = .locked g := by
   simp only [step] at h
   split at h
@@ -476,9 +478,10 @@ theorem gc_call_needs_lock (env : Env) (s : State) (r : Nat) (h : (step env s (.
     for the updaters it never started; `Run` reports failures of driveUpdater
     only (the `+1` slot of errChan "for a potential ctx error" is never used). -/
 theorem cancelled_run_reports_no_error :
-    let u : Upd := { name := 7, kind := .plain, getOk := fun _ => true, fetch := fun _ _ => (.ok, 1),
+    let u : Upd := { name := 7, kind := .plain, getOk := fun _ => true, fetch := fun _ _ => (.ok, 1), closer := fun _ _ => true,
                      parse := fun _ => some ⟨[1], []⟩, storeOk := fun _ => true }
     let env : Env := { upd := fun _ => u, batch := fun _ => 2, toRun := fun _ => [0, 1], stubSets := fun _ => 0,
+                       facCalls := fun _ => [], cfgCalls := fun _ => [], keep := fun _ => 0,
                        gc := fun _ => false, gcInst := 99 }
     let evs : List Ev := [.cancel 0, .begin 0, .acquire 0, .wait 0, .drained 0]
     (step env (reach env [] evs) (.ret 0)).2 = .ret [] ∧ (reach env [] evs).pc 0 0 = .idle := by
@@ -488,15 +491,16 @@ theorem cancelled_run_reports_no_error :
     healthy updater reaches `drained`, names exactly the failing one, and the
     healthy one's result is in the store. -/
 example :
-    let good : Upd := { name := 2, kind := .delta, getOk := fun _ => true, fetch := fun _ _ => (.ok, 5),
+    let good : Upd := { name := 2, kind := .delta, getOk := fun _ => true, fetch := fun _ _ => (.ok, 5), closer := fun _ _ => true,
                         parse := fun _ => some ⟨[1, 2], [3]⟩, storeOk := fun _ => true }
     let bad : Upd := { good with name := 3, parse := fun _ => none }
     let env : Env := { upd := fun i => if i = 0 then good else bad, batch := fun _ => 1,
                        toRun := fun _ => [0, 1], stubSets := fun _ => 0,
+                       facCalls := fun _ => [], cfgCalls := fun _ => [], keep := fun _ => 0,
                        gc := fun _ => false, gcInst := 99 }
     let evs : List Ev := [.begin 0, .acquire 0, .launch 0, .tryLock 0 1, .getOps 0 1, .fetch 0 1, .parse 0 1,
-      .status 0 1, .done 0 1, .acquire 0, .launch 0, .tryLock 0 0, .getOps 0 0, .fetch 0 0, .parse 0 0, .store 0 0,
-      .status 0 0, .done 0 0, .wait 0, .drained 0]
+      .close 0 1, .status 0 1, .done 0 1, .acquire 0, .launch 0, .tryLock 0 0, .getOps 0 0, .fetch 0 0, .parse 0 0, .store 0 0,
+      .close 0 0, .status 0 0, .done 0 0, .wait 0, .drained 0]
     ((reach env [⟨2, .vuln, 4⟩] evs).run 0).pc = .drained ∧ ((reach env [⟨2, .vuln, 4⟩] evs).run 0).errs = [1] ∧
     (reach env [⟨2, .vuln, 4⟩] evs).ops = [⟨2, .vuln, 5⟩, ⟨2, .vuln, 4⟩] ∧
     callsOf (reach env [⟨2, .vuln, 4⟩] evs) 0 0 = [.delta 2 5 [1, 2] [3]] := by
